@@ -448,6 +448,82 @@ def check_property_lists(ctx, db, nullable, rule='R-NULL'):
     ctx.check(pre, 'R-COPY.list', 'gdstk::get_or_add_property/prepends', f.loc(), 'a new property is linked in front of the list head')
 
 
+def check_heap(ctx, db):
+    """heap sort (fallback of the introsort used by fracture and the OASIS writer): inclusive-bound
+    discipline. `end` is the LAST VALID index everywhere; every comparison of a child index with it is
+    `<=`; the slot that has just received the maximum is outside the range handed to sift_down."""
+    from .C19 import ieval
+    from ..flow import _strip_casts
+    norm = lambda t: re.sub(r'<[A-Za-z]+:(?!:)[^>]*>', '', t).replace('gdstk::', '')
+    n = 0
+    for f in db.fn('gdstk::leaf_search', all=True)[:1]:
+        ctx.touch(f)
+        jr = next((v for v in f.walk() if v.k == 'VarDecl' and v.n == 'jr'), None)
+        jls = [v for v in f.walk() if v.k == 'VarDecl' and v.n == 'jl']
+        loop = next((l for l in f.walk() if l.k == 'WhileStmt'), None)
+        post = next((i for i in f.body.c if i is not None and i.k == 'IfStmt'), None)
+        if jr is None or len(jls) != 2 or loop is None or post is None:
+            raise AnalysisBroken('leaf_search: shape not recognised')
+        ok = all(ieval(jr.child('init'), {'j': k}) == 2 * k + 2 for k in range(12)) and all(ieval(v.child('init'), {'j': k}) == 2 * k + 1 for v in jls for k in range(12))
+        ctx.check(ok, 'R-TABLE', 'leaf_search/child-indices', f.loc(), 'left child 2j+1, right child 2j+2 (evaluated for j = 0..11)')
+        c1, c2 = norm(loop.child('cond').text()), norm(post.child('cond').text())
+        n += 2
+        ctx.check(c1 == '(jr <= end)', 'R-BOUND.inclusive', 'leaf_search/descend-while-right-child-exists', loop.loc(), 'the descent continues while the right child index is <= end (end is the last valid index): both children are compared',
+                  'descent condition is `%s`: with an inclusive `end` the right child at index end is never considered and the larger child can be missed' % c1)
+        ctx.check(c2 == '(jl <= end)', 'R-BOUND.inclusive', 'leaf_search/lone-left-child', post.loc(), 'a lone left child at index <= end is taken', 'lone-left-child test is `%s`' % c2)
+        acc = sorted({norm(x.child('rhs').text() if x.child('rhs') is not None else '') for x in loop.walk() if x.k == 'ArraySubscriptExpr'} | {norm(x.text()) for x in loop.walk() if x.k == 'ArraySubscriptExpr'})
+        ctx.check(any('items[jl]' in a for a in acc) and any('items[jr]' in a for a in acc), 'R-SHAPE', 'leaf_search/compares-both-children', loop.loc(), 'the two children are compared with each other')
+    for f in db.fn('gdstk::sift_down', all=True)[:1]:
+        ctx.touch(f)
+        par = [v for v in f.walk() if (v.k == 'VarDecl' and v.n == 'parent')]
+        asg = [x for x in f.walk() if is_assign(x) and norm(x.child('lhs').text()) == 'j' and '>>' in norm(x.child('rhs').text())]
+        ok = len(par) == 1 and len(asg) == 1 and all(ieval(par[0].child('init'), {'j': k}) == (k - 1) // 2 for k in range(1, 14)) and all(ieval(asg[0].child('rhs'), {'j': k}) == (k - 1) // 2 for k in range(1, 14))
+        ctx.check(ok, 'R-TABLE', 'sift_down/parent-index', f.loc(), 'parent (j-1)>>1 (evaluated for j = 1..13), inverse of both child formulas')
+        ls = [c for c in f.walk() if c.k == 'CallExpr' and (c.callee or '').endswith('leaf_search')]
+        ok = len(ls) == 1 and [norm(a.text()) for a in ls[0].args[:3]] == ['items', 'start', 'end']
+        ctx.check(ok, 'R-SHAPE', 'sift_down/forwards-range', f.loc(), 'the leaf search runs over the same inclusive range [start, end]')
+    for f in db.fn('gdstk::heap_sort', all=True)[:1]:
+        ctx.touch(f)
+        calls = [c for c in f.walk() if c.k == 'CallExpr' and (c.callee or '').endswith('sift_down')]
+        if len(calls) != 2:
+            raise AnalysisBroken('heap_sort: expected two sift_down call sites')
+        n += 2
+        ctx.check(norm(calls[0].args[2].text()) == '(count - 1)', 'R-BOUND.inclusive', 'heap_sort/build-range', calls[0].loc(), 'heap construction sifts within [start, count-1]: `end` is the last valid index', 'build phase passes end = %s' % norm(calls[0].args[2].text()))
+        sw = next((c for c in f.walk() if c.k == 'CallExpr' and (c.callee or '').endswith('swap_values')), None)
+        loop = next((a for a in calls[1].ancestors() if a.k in ('WhileStmt', 'ForStmt')), None)
+        bad = None
+        if sw is None or loop is None or not any(a is loop for a in sw.ancestors()):
+            raise AnalysisBroken('heap_sort: extraction loop not recognised')
+        idx = [x for x in sw.walk() if x.k == 'ArraySubscriptExpr']
+        ivar = None
+        for x in idx:
+            t = norm(x.text())
+            m = re.fullmatch(r'items\[(\w+)\]', t)
+            if m and m.group(1) != '0':
+                ivar = m.group(1)
+        if ivar is None or '[0]' not in ' '.join(norm(x.text()) for x in idx):
+            raise AnalysisBroken('heap_sort: swap is not items[0] <-> items[<var>]')
+        body = [s_ for s_ in loop.child('body').c if s_ is not None]
+        i0, i1 = body.index(sw), body.index(calls[1])
+        net = 0
+        for s_ in body[i0 + 1:i1]:
+            for x in s_.walk():
+                if x.k == 'UnaryOperator' and x.op in ('--', 'post--') and norm(x.child('sub').text()) == ivar:
+                    net -= 1
+                if x.k == 'UnaryOperator' and x.op in ('++', 'post++') and norm(x.child('sub').text()) == ivar:
+                    net += 1
+                if x.k == 'CompoundAssignOperator' and norm(x.child('lhs').text()) == ivar:
+                    net += {'-=': -1, '+=': 1}.get(x.op, 0) * (x.child('rhs').cv or 0)
+        a2 = norm(calls[1].args[2].text())
+        m = re.fullmatch(r'\(%s - (\d+)\)' % ivar, a2)
+        off = net + (-int(m.group(1)) if m else (0 if a2 == ivar else None) if True else 0) if (m or a2 == ivar) else None
+        ctx.check(off == -1 and i0 < i1, 'R-BOUND.inclusive', 'heap_sort/extracted-maximum-leaves-the-heap', calls[1].loc(), 'after items[0] <-> items[%s] the heap is re-established over [0, %s-1]: the slot that received the maximum is excluded' % (ivar, ivar),
+                  'after the maximum is swapped into items[%s] the sift range ends at %s%+d: the just-placed maximum is pulled back into the heap' % (ivar, ivar, off if off is not None else 0))
+        iv = next((v for v in f.walk() if v.k == 'VarDecl' and v.n == ivar), None)
+        ctx.check(iv is not None and norm(iv.child('init').text()) == '(count - 1)' and norm(loop.child('cond').text()) == '(%s > 0)' % ivar, 'R-LOOP', 'heap_sort/extraction-range', loop.loc(), 'extraction runs from the last index down to 1')
+    ctx.require('R-BOUND.inclusive comparisons', n, 4)
+
+
 def run(ctx):
     db = ctx.db
     nullable = flow.nullable_functions(db)
@@ -455,6 +531,7 @@ def run(ctx):
     check_tables(ctx, db)
     check_payload(ctx, db)
     check_array(ctx, db)
+    check_heap(ctx, db)
     # positive control for the contradiction rule
     cdb = load_controls()
     for name, expect in (('ctl_list_head_removal', True), ('ctl_list_head_removal_ok', False)):
@@ -466,7 +543,7 @@ def run(ctx):
 
 
 MANIFEST = dict(
-   text='Decides structural necessary conditions of the container models on all paths: (1) check-then-use null contradictions in every property-list function (a pointer the function itself null-tests, re-assigned from a list tail and dereferenced untested); (2) the four open-addressing tables (Map<T>, Set<T>, TagMap, StyleMap; every member instantiated explicitly) have control skeletons equal to a frozen reference after abstracting the table-specific empty-slot predicate (probe wrap at items+capacity, load-factor test before get_slot, count++ only on an empty slot, del = empty + count-- + cluster re-insertion until the first empty slot, resize re-inserts every occupied item then clears, next bounded by items+capacity), payload obligations (old slot emptied, every item field written), count==0 guard before every look-up; (3) Array<T> bookkeeping; (4) property-list copies append at the tail and deep-copy. Does not decide equivalence with an abstract map/multimap over operation histories, and nothing about sort (value-dependent).',
+   text='Decides structural necessary conditions of the container models on all paths: (1) check-then-use null contradictions in every property-list function (a pointer the function itself null-tests, re-assigned from a list tail and dereferenced untested); (2) the four open-addressing tables (Map<T>, Set<T>, TagMap, StyleMap; every member instantiated explicitly) have control skeletons equal to a frozen reference after abstracting the table-specific empty-slot predicate (probe wrap at items+capacity, load-factor test before get_slot, count++ only on an empty slot, del = empty + count-- + cluster re-insertion until the first empty slot, resize re-inserts every occupied item then clears, next bounded by items+capacity), payload obligations (old slot emptied, every item field written), count==0 guard before every look-up; (3) Array<T> bookkeeping; (4) property-list copies append at the tail and deep-copy. (5) heap sort (introsort fallback): child/parent index formulas evaluated for small indices, every comparison of a child index with the inclusive bound `end` is `<=`, the build phase passes count-1, and after the maximum is swapped to items[end] the sift range excludes that slot. Does not decide equivalence with an abstract map/multimap over operation histories, nor that sort orders every input (value-dependent; only the index discipline of the heap part is decided).',
    note='Trusted: clang 14 front end, gx, sa rules; the frozen reference skeletons in sa/props/C20.py were confirmed by reading the pinned tree (a consistent refactor of all tables is reported as differing from the reference, exit 1 naming the method, to be re-confirmed by a human); hash() not analysed.',
    technique='clone-family comparison with predicate abstraction over typed ASTs + nullness dataflow (check-then-use contradiction) over the clang CFG',
    design='§4 C20')
